@@ -382,3 +382,14 @@ func (x *evExec) do(e c02Ev, inBurst bool) {
 		}
 	}
 }
+
+// The limiter's in-flight gauge, the strategy and the partition bins stay exact while sampling windows
+// close and the limit moves (DefaultLimiter engine, every strategy, scripted and real limits).
+func TestC02_windows(t *testing.T) {
+	kit.RequireMode(t, "std")
+	kit.Check(t, kit.Prop[dlCase]{
+		ID: "C02", Quick: 1500, Thor: 150_000,
+		Rule: "DefaultLimiter engine on a virtual clock (acquire / complete with every outcome / sleep, windows really close, the limit really moves): after every event strategy busy == limiter in-flight gauge == bin counts == outstanding tokens; non-trivial = at least one window closed while tokens were being released",
+		Gen:  genDL("c02"), Run: func(t *testing.T, c dlCase) kit.Outcome { return runDL(t, c, "c02") },
+	})
+}
